@@ -61,6 +61,29 @@ def port_class(hp):
     return "port"
 
 
+def e2e_class(case):
+    """class of a failing session: upstream kind (+ PAC keyword when every request's host has the same one)"""
+    cfg = case.get("cfg", {})
+    tags = []
+    if case.get("same_conn"):
+        tags.append("one-connection")
+    if cfg.get("mitm"):
+        tags.append("mitm")
+    if cfg.get("pac"):
+        kws = set()
+        for q in case.get("requests", []):
+            h = q.get("urlhost", "")
+            h = h[1:h.index("]")] if h.startswith("[") else h.rsplit(":", 1)[0] if ":" in h else h
+            v = pac_value(cfg, h)
+            kws.add(v if v.startswith("<") else "kw=%s,%s" % ((lambda k, hp: (k if k in KNOWN_KW else "other", port_class(hp)))(*first_keyword(v))))
+        tags.insert(0, "pac," + (sorted(kws)[0] if len(kws) == 1 else "mixed"))
+    elif cfg.get("upstream"):
+        tags.insert(0, "static-" + cfg["upstream"].split("://")[0])
+    else:
+        tags.insert(0, "no-upstream")
+    return ",".join(tags)
+
+
 def classify(kind, case):
     """input class of a failing case: part of the violation key (known-findings are suppressed by key)"""
     try:
@@ -69,7 +92,9 @@ def classify(kind, case):
             return "kw=%s,%s" % (kw if kw in KNOWN_KW else "other", port_class(hp))
         if kind in ("fcases", "ecases"):
             cfg = case.get("cfg", {})
-            host = case.get("host") or case.get("urlhost", "")
+            host = case.get("urlhost", "")
+            if kind == "ecases":
+                return e2e_class(case)
             if kind == "fcases":
                 host = host.rsplit(":", 1)[0] if (":" in host and not host.endswith("]")) else host
             if cfg.get("pac"):
@@ -192,7 +217,7 @@ def run(ctx):
     counts = meta.get("counts", {})
     dist = meta.get("distribution", {})
     total = sum(int(v) for v in counts.values())
-    e2e_requests = sum(v for k, v in dist.items() if k.startswith("e2e_wire_")) + int(dist.get("e2e_no_party_contacted", 0))
+    e2e_requests = sum(v for k, v in dist.items() if k.startswith("e2e_request_kind_"))
     nontriv = (int(dist.get("pac_first_ok", 0)) + int(dist.get("func_url", 0)) + int(dist.get("func_fail", 0)) +
                sum(v for k, v in dist.items() if k.startswith("e2e_wire_") and not k.startswith("e2e_wire_0")) +
                int(counts.get("rcases", 0)))
